@@ -277,7 +277,7 @@ func newChanC03(r interface{ Intn(int) int }, conn *wire.Script, M int) (p9p.Cha
 }
 
 func runC03(w *mon.W) {
-	total := w.Scale(9000, 450000)
+	total := w.Scale(9000, 1500000)
 	g := gen.Small(w.Rng)
 	msizes := []int{32, 64, 256, 4096, 65536}
 	for i := 0; i < total; i++ {
